@@ -74,7 +74,7 @@ theorem parseInt64_neg_natToDec (n : Nat) (h : n ≤ 2 ^ 63) :
   simp [h]
 
 /-- `ParseInt(FormatInt(i, 10), 10, 64) = i` on the int64 range -/
-theorem parseInt64_formatInt (i : Int) (hlo : -(2 ^ 63 : Int) ≤ i) (hhi : i < 2 ^ 63) :
+theorem parseInt64_formatInt_range (i : Int) (hlo : -(2 ^ 63 : Int) ≤ i) (hhi : i < 2 ^ 63) :
     parseInt64? (formatInt i) = some i := by
   unfold formatInt
   by_cases hneg : i < 0
